@@ -8,7 +8,7 @@
    (4) so every counter is the size of a duplicate-free key list with an
        explicit membership condition. *)
 From Coq Require Import ZArith NArith List Bool Arith Lia Permutation.
-From CL Require Import Base.Sx Base.Res Base.Str Model.AddRemove Proofs.AddRemoveProofs
+From CL Require Import Base.Sx Base.Res Base.Str Model.AddRemove Proofs.AddRemoveProofs Proofs.AddRemoveSpec
   Model.Compare Proofs.CompareSpec.
 Import ListNotations.
 Local Open Scope nat_scope.
@@ -1007,6 +1007,154 @@ Proof.
                       (fun id (Hf : In id []) => match Hf with end) H) as [H1 H2].
   split; [exact H1|]. intros id Hin. destruct (H2 id Hin) as (Hm & k & e & He & Hi).
   split; [exact Hm|]. exists k, e. split; [apply last_ent_iff; exact He|exact Hi].
+Qed.
+
+(* ---- the order of `missings`; the junk notifications ------------------------------ *)
+Lemma map_filter_labelled (p : label * K -> bool) (xs : list (label * K)) :
+  (forall x, In x xs -> fst x = label_of eqb kr kl (snd x)) ->
+  map snd (filter p xs) = filter (fun k => p (label_of eqb kr kl k, k)) (map snd xs).
+Proof.
+  induction xs as [|[lab k] xs IH]; intros H; cbn [filter map snd]; [reflexivity|].
+  pose proof (H (lab, k) (or_introl eq_refl)) as E. cbn in E. subst lab.
+  rewrite <- IH by (intros y Hy; apply H; right; exact Hy).
+  destruct (p (label_of eqb kr kl k, k)); reflexivity.
+Qed.
+
+Lemma sel_as_filter (p : label * K -> bool) :
+  sel p kr kl = filter (fun k => p (label_of eqb kr kl k, k)) (map snd steps).
+Proof.
+  unfold sel. apply map_filter_labelled. intros [lab k] Hin.
+  exact (addremove_labels eqb kr kl lab k Hin).
+Qed.
+
+Lemma filter_through {A} (p q : A -> bool) (l : list A) :
+  (forall x, p x = true -> q x = true) -> filter p l = filter p (filter q l).
+Proof.
+  intros H. induction l as [|x l IH]; cbn; [reflexivity|].
+  destruct (p x) eqn:Ep.
+  - rewrite (H x Ep). cbn. rewrite Ep, IH. reflexivity.
+  - destruct (q x); cbn; [rewrite Ep|]; exact IH.
+Qed.
+
+(* with duplicate-free key sequences, what a predicate that implies "is a reference key"
+   selects comes in the order of the reference *)
+Lemma sel_ref_order (p : label * K -> bool) :
+  NoDup kr -> NoDup kl ->
+  (forall k, p (label_of eqb kr kl k, k) = true -> In k kr) ->
+  sel p kr kl = filter (fun k => p (label_of eqb kr kl k, k)) kr.
+Proof.
+  intros Hr Hl Hp. rewrite sel_as_filter.
+  rewrite (filter_through _ (fun k => mem k kr)).
+  - rewrite (AddRemoveSpec.addremove_left_order eqb eqb_eq kr kl Hr Hl). reflexivity.
+  - intros k Hk. apply (mem_In eqb eqb_eq). apply Hp. exact Hk.
+Qed.
+
+Definition is_njunk (n : @note K) : bool := match n with NJunk _ => true | _ => false end.
+Definition p_junk (x : label * K) : bool :=
+  match fst x with Add => l10njunk (snd x) | _ => false end.
+Definition jid (k : K) : Z := match lastw k l10n with Some e => c_id e | None => 0%Z end.
+
+Lemma iteration_junk x d : iter x d ->
+  filter is_njunk (a_notes d) = if p_junk x then [NJunk (jid (snd x))] else [].
+Proof.
+  intros [sk Hit]; revert Hit.
+  destruct x as [lab k0]. unfold iteration, Compare.iteration. rewrite !getitem_lastw.
+  unfold p_junk, l10njunk, jid. cbn [fst snd].
+  assert (Hn : forall fs : list finding,
+             filter is_njunk (map (fun f => @NCheck K (f_error f) (f_msg f)) fs) = []).
+  { induction fs as [|f fs IHf]; [reflexivity|exact IHf]. }
+  destruct lab; cbn [bind].
+  - destruct (lastw k0 ref) as [a|]; cbn [bind]; [|discriminate].
+    destruct (lastw k0 l10n) as [b|]; cbn [bind]; [|discriminate].
+    destruct (keyname k0); cbn [bind].
+    + intros H; inversion H; subst; cbn. apply Hn.
+    + destruct (c_junk a); cbn [bind]; [discriminate|].
+      destruct (equals eqb veq a b); cbn [bind]; intros H; inversion H; subst; cbn; apply Hn.
+  - destruct (lastw k0 ref) as [a|]; cbn [bind]; [|discriminate].
+    destruct (c_junk a); [|destruct (flt k0)]; intros H; inversion H; subst; reflexivity.
+  - destruct (lastw k0 l10n) as [b|]; cbn [bind]; [|discriminate].
+    destruct (c_junk b); [|destruct (flt k0)]; intros H; inversion H; subst; reflexivity.
+Qed.
+
+(* the junk errors: one per localized key whose entity is Junk and which is no reference key *)
+Lemma junk_notes r : compare = Ok r ->
+  filter is_njunk (a_notes r) = map (fun k => NJunk (jid k)) (sel p_junk kr kl).
+Proof.
+  intros H. destruct (notes_unfold r H) as (ds & HF & ->).
+  rewrite filter_app.
+  assert (Hd : filter is_njunk dup_notes = []).
+  { assert (Hall : forall n, In n dup_notes -> is_njunk n = false).
+    { intros n Hn. apply dup_notes_plain in Hn. destruct Hn as (b & k & c & ->). reflexivity. }
+    induction dup_notes as [|n ns IHn]; [reflexivity|]. cbn.
+    rewrite (Hall n (or_introl eq_refl)). apply IHn. intros m Hm. apply Hall. right; exact Hm. }
+  rewrite Hd. cbn [app]. unfold sel. rewrite map_map.
+  induction HF as [|x d xs ds Hxd _ IH]; cbn [map concat filter]; [reflexivity|].
+  rewrite filter_app, (iteration_junk x d Hxd), IH.
+  destruct (p_junk x); reflexivity.
+Qed.
+
+(* ---- errors and warnings when the checker is silent -------------------------------- *)
+Definition is_err (n : @note K) : bool :=
+  match note_cat n with CatError => true | _ => false end.
+Definition is_warn (n : @note K) : bool :=
+  match note_cat n with CatWarning => true | _ => false end.
+Definition p_refjunk (x : label * K) : bool :=
+  match fst x with Delete => refjunk (snd x) | _ => false end.
+
+Lemma iteration_msgs x d : iter x d -> (forall a b, chk a b = []) ->
+  filter is_err (a_notes d) = (if p_junk x then [NJunk (jid (snd x))] else []) /\
+  filter is_warn (a_notes d) = (if p_refjunk x then [NRefJunk] else []).
+Proof.
+  intros [sk Hit] Hchk; revert Hit.
+  destruct x as [lab k0]. unfold iteration, Compare.iteration. rewrite !getitem_lastw.
+  unfold p_junk, p_refjunk, l10njunk, refjunk, jid. cbn [fst snd].
+  destruct lab; cbn [bind].
+  - destruct (lastw k0 ref) as [a|]; cbn [bind]; [|discriminate].
+    destruct (lastw k0 l10n) as [b|]; cbn [bind]; [|discriminate]. rewrite Hchk.
+    destruct (keyname k0); cbn [bind].
+    + intros H; inversion H; subst; cbn. split; reflexivity.
+    + destruct (c_junk a); cbn [bind]; [discriminate|].
+      destruct (equals eqb veq a b); cbn [bind]; intros H; inversion H; subst; cbn;
+        split; reflexivity.
+  - destruct (lastw k0 ref) as [a|]; cbn [bind]; [|discriminate].
+    destruct (c_junk a); [|destruct (flt k0)]; intros H; inversion H; subst; split; reflexivity.
+  - destruct (lastw k0 l10n) as [b|]; cbn [bind]; [|discriminate].
+    destruct (c_junk b); [|destruct (flt k0)]; intros H; inversion H; subst; split; reflexivity.
+Qed.
+
+Lemma msgs_notes r : compare = Ok r -> (forall a b, chk a b = []) ->
+  filter is_err (a_notes r) =
+    filter is_err dup_notes ++ map (fun k => NJunk (jid k)) (sel p_junk kr kl) /\
+  filter is_warn (a_notes r) =
+    filter is_warn dup_notes ++ map (fun _ => NRefJunk) (sel p_refjunk kr kl).
+Proof.
+  intros H Hchk. destruct (notes_unfold r H) as (ds & HF & ->).
+  rewrite !filter_app. unfold sel. rewrite !map_map.
+  induction HF as [|x d xs ds Hxd _ IH]; cbn [map concat filter]; [split; reflexivity|].
+  destruct IH as [IH1 IH2]. destruct (iteration_msgs x d Hxd Hchk) as [E1 E2].
+  rewrite !filter_app, E1, E2.
+  apply app_inv_head in IH1. apply app_inv_head in IH2. rewrite IH1, IH2.
+  destruct (p_junk x), (p_refjunk x); split; reflexivity.
+Qed.
+
+Lemma kcount_NoDup k l : NoDup l -> kcount k l <= 1.
+Proof.
+  unfold kcount. induction 1 as [|x l Hx _ IH]; cbn; [lia|].
+  destruct (eqb k x) eqn:E; [|exact IH]. apply eqb_eq in E. subst. cbn.
+  assert (Hz : filter (eqb x) l = []).
+  { clear IH. induction l as [|y l IHl]; [reflexivity|]. cbn.
+    destruct (eqb x y) eqn:E; [apply eqb_eq in E; subst; exfalso; apply Hx; left; reflexivity|].
+    apply IHl. intros Hin. apply Hx. right; exact Hin. }
+  rewrite Hz. cbn. lia.
+Qed.
+
+Lemma find_duplicates_NoDup (ents : list cent) :
+  NoDup (map c_key ents) -> find_duplicates eqb ents = [].
+Proof.
+  intros Hnd. destruct (find_duplicates_spec ents) as [_ Hin].
+  destruct (find_duplicates eqb ents) as [|[k n] rest]; [reflexivity|].
+  destruct (proj1 (Hin k n) (or_introl eq_refl)) as [-> Hn].
+  pose proof (kcount_NoDup k _ Hnd). lia.
 Qed.
 
 (* the only way to raise: Junk.equals on a reference Junk whose generated key is
